@@ -106,6 +106,10 @@ class GetItem(Op):
     def gen(self, rng, tier, boost):
         for _ in range(500 * boost):
             m = gens.mode(rng)
+            if rng.random() < 0.25:
+                rec, info = R.gen_sticky_rec(rng, m)
+                yield (m, rec, tuple(sorted(info.items())), rng.choice([1, 2, 3, 4, 5, 6, 8, 9, 12]))
+                continue
             rec, info = R.gen_rec(rng, m, max_reps=12)
             yield (m, rec, tuple(sorted(info.items())), rng.choice([0, 1, 2, 3, 5, 11, 12, 13, 29]))
 
